@@ -659,3 +659,35 @@ func autoIDProbedFree(f *ssa.Function, autoStore *ssa.Store) bool {
 	}
 	return true
 }
+
+// addErrorPropagated (C09-R6): the error of Container.AddAccessory reaches the caller of NewIPTransport. The container rejects an
+// accessory whose id is taken — an explicit id that an earlier automatic assignment has used ( bridge, lamp, switch with Info.ID 2:
+// the lamp got 2 ), or two equal explicit ids. With the error dropped the transport starts without that accessory, wires its
+// change callbacks all the same (its events go out under the other accessory's ids), and a controller that asks for its ids is
+// served the other accessory's values — nothing tells the application.
+func addErrorPropagated(c *core.Ctx) {
+	p := c.P
+	n := 0
+	for _, f := range libFuncs(p) {
+		if isTestFunc(p, f) || !core.IsLibraryPkg(pkgPathOf(f)) {
+			continue
+		}
+		core.Instrs(f, func(i ssa.Instruction) {
+			g := core.Callee(i)
+			if g == nil || !(cn(g) == "AddAccessory" && core.TypeIs(recvType(g), tContainer) || cn(g) == "addAccessory") {
+				return
+			}
+			n++
+			v, isVal := i.(ssa.Value)
+			used := isVal && v.Referrers() != nil && len(*v.Referrers()) > 0 && g.Signature.Results().Len() > 0
+			c.Check(used, "add-error-propagated@"+fname(f), posOf(i), "the error of "+cn(g)+" is looked at",
+				"the error of "+cn(g)+" is dropped: an accessory the container rejects (its id is taken) is missing from the database without a word, its callbacks are wired all the same, and its ids answer with another accessory's values")
+		})
+	}
+	if n == 0 {
+		c.Undecided("add-error-propagated", token.NoPos, "no call of AddAccessory in the library")
+	}
+	if f := p.Func("", "NewIPTransport"); f != nil {
+		errorTestPolarity(c, f, nil)
+	}
+}
